@@ -23,6 +23,11 @@ RULE = (
     "context at entry); <=1 firing per activation per timer; a state that outlives a deadline (guard true) must take the "
     "transition at t_in+delay exactly, or at the end of the busy period if a slow action overlaps the deadline; a "
     "false-guarded timer never fires; nothing fires after exit or stop(); no timer task/thread survives stop(). "
+    "Campaign `rollback`: `a` additionally has a child a3 (entered by TRAP) whose exit list names an unimplemented action, "
+    "so every transition leaving a3 aborts in its exit phase and is rolled back with `a` in the exit set; the rollback "
+    "re-arms what was cancelled (C07), which gives the states on that branch one more admissible deadline origin: a "
+    "firing must sit on t0+delay for the entry time or a rollback time t0, a second firing in one activation needs a "
+    "rollback after the first, and a state that outlives its last admissible deadline must have fired at least once. "
     "Non-trivial = an external event or slow action overlaps a deadline, or a state is re-entered before an earlier "
     "activation's deadline; distinct = distinct (machine, history)."
 )
@@ -36,7 +41,7 @@ EPS = 1e-6
 
 def plan(tier):
     q = tier == "quick"
-    out = [{"name": "main", "examples": 2500 if q else 60000}]
+    out = [{"name": "main", "examples": 2500 if q else 60000}, {"name": "rollback", "examples": 800 if q else 20000}]
     for f in findings.open_for(PROPERTY):
         if f.exclude_profile:
             out.append({"name": "probe:" + f.id, "examples": 400 if q else 4000, "shards": 4})
@@ -47,7 +52,7 @@ DELAYS = [20, 50, 100]
 
 
 @st.composite
-def _case(draw, allow_queued_behind_slow=True):
+def _case(draw, allow_queued_behind_slow=True, trap=False):
     d = D(draw)
     delays_logic = {"DC": d.pick(DELAYS), "DF": {"k": "ctx", "key": "d", "base": d.pick([10, 30])}}
     n_after = d.int(1, 3)
@@ -67,6 +72,8 @@ def _case(draw, allow_queued_behind_slow=True):
             continue
         used.add(str(key))
         tgt = d.pick([["b"], ["c"], ["x"], ["a"], None, ["a"]])
+        if trap:
+            tgt = None          # see `trap` below: every transition that leaves a3 aborts
         t = {"target": tgt, "actions": []}
         if tgt == ["a"] and d.chance(60):
             t["reenter"] = True
@@ -82,7 +89,7 @@ def _case(draw, allow_queued_behind_slow=True):
         ["SET", [{"target": None, "actions": [{"k": "assign", "ops": [["copy", "d", "d"]]}]}]],
         ["PING", [{"target": None, "actions": []}]],
     ]}
-    if d.chance(40):
+    if trap or d.chance(40):
         a["kind"] = "compound"
         a["initial"] = "a1"
         a1 = {"key": "a1", "kind": "atomic", "on": [["IN", [{"target": ["a", "a2"], "actions": []}]]]}
@@ -90,6 +97,17 @@ def _case(draw, allow_queued_behind_slow=True):
         if d.chance(50):
             a1["after"] = [[d.pick(DELAYS), [{"target": ["a", "a2"], "actions": []}]]]
         a["children"] = [a1, a2]
+        if trap:
+            # a3: entered by TRAP; its exit list names an action that has no implementation, so from
+            # then on every transition that would leave a3 (GO, RE, IN, TRAP) aborts in the exit
+            # phase and is rolled back - with `a` in the exit set but, depending on the engine, its
+            # timers cancelled (sync: all exiting states up front) or not yet (async: per state).
+            a3 = {"key": "a3", "kind": "atomic", "exit": [{"k": "user", "name": "u_missing"}],
+                  "on": [["IN", [{"target": ["a", "a1"], "actions": []}]]]}
+            if d.chance(40):
+                a3["after"] = [[d.pick(DELAYS), [{"target": None, "actions": []}]]]
+            a["children"].append(a3)
+            a["on"].append(["TRAP", [{"target": ["a", "a3"], "actions": []}]])
     x = {"key": "x", "kind": "atomic", "on": [["BACK", [{"target": ["a"], "actions": []}]], ["SLOW", [{"target": None, "actions": [{"k": "user", "name": "slow"}]}]],
                                             ["SET", [{"target": None, "actions": [{"k": "assign", "ops": [["copy", "d", "d"]]}]}]]]}
     if d.chance(30):
@@ -101,11 +119,11 @@ def _case(draw, allow_queued_behind_slow=True):
     root = {"key": "m", "kind": "compound", "initial": "a", "children": [a, x, b, c]}
     slow_ms = d.pick([5, 30, 60, 120])
     spec = {"id": "m", "root": root, "context": {"n": 0, "d": 0}, "maxIterations": 50, "tables": {}, "services": {},
-            "delays": delays_logic, "impls": {"slow": {"k": "slow", "ms": slow_ms}}}
+            "delays": delays_logic, "impls": {"slow": {"k": "slow", "ms": slow_ms}, "u_missing": {"k": "missing"}}}
     finalize(spec)
     # ---- history on a grid around the deadlines
     grid = sorted({1, 5} | {v for dl in DELAYS for v in (dl - 1, dl, dl + 1, dl // 2, 2 * dl)})
-    evs = ["GO", "BACK", "RE", "SLOW", "PING", "IN", "SET"]
+    evs = ["GO", "BACK", "RE", "SLOW", "PING", "IN", "SET"] + (["TRAP", "TRAP", "GO"] if trap else [])
     hist = []
     seq = 0
     for _ in range(d.int(2, 12)):
@@ -140,6 +158,8 @@ def strategy(tier, campaign):
     excl_queue = any(f.exclude_profile.get("queued_behind_slow") is False for f in opens)
     if campaign == "main":
         return _case(allow_queued_behind_slow=not excl_queue)
+    if campaign == "rollback":
+        return _case(allow_queued_behind_slow=False, trap=True)
     return _case(allow_queued_behind_slow=True)
 
 
@@ -208,8 +228,34 @@ def check_case(case) -> CaseResult:
     cur_recv = None
     nontrivial = False
     t_end = run.steps[-1].vt if run.steps else 0.0
-    for e in log:
+    pend_exit = []   # activations closed since the last completed transition
+    rollbacks = 0
+
+    def reconcile():
+        # exit markers that were not followed by a completed transition (no on_transition hook
+        # before the next event was dequeued) belong to a transition that aborted and was rolled
+        # back: those states are active again. The engine re-arms what it had cancelled (C07), so
+        # every state on that branch gets one more admissible deadline origin ("epoch").
+        nonlocal rollbacks, nontrivial
+        if not pend_exit:
+            return
+        rollbacks += 1
+        t_abort = max(a["t_out"] for a in pend_exit)
+        for a in pend_exit:
+            a["t_out"] = None
+            acts_open[a["state"]] = a
+        for a in list(acts_open.values()):
+            if any(r["state"] == a["state"] or r["state"].startswith(a["state"] + ".") for r in pend_exit):
+                a.setdefault("epochs", []).append(t_abort)
+                if timers.get(a["state"]):
+                    nontrivial = True
+        pend_exit.clear()
+
+    for e in log + [("recv", "<end>", None, t_end, None)]:
         if e[0] == "recv":
+            reconcile()
+            if e[1] == "<end>":
+                break
             cur_recv = e
             if e[1].startswith("after."):
                 _, delay_key, sid = e[1].split(".", 2)
@@ -235,8 +281,10 @@ def check_case(case) -> CaseResult:
                 s = idx.exit_marker[name]
                 if s in acts_open:
                     acts_open[s]["t_out"] = vt
+                    pend_exit.append(acts_open[s])
                     del acts_open[s]
         elif e[0] == "trans":
+            pend_exit.clear()
             ti = idx.trans.get(e[1]) if e[1] else None
             if ti is None or ti.family != "after":
                 continue
@@ -266,14 +314,22 @@ def check_case(case) -> CaseResult:
                             {"state": sid, "timer": str(ti.key), "delay_s": D_, "t_in": a["t_in"], "fired_at": recv_t, "elapsed": round(elapsed, 6)})
                 continue
             k = str(ti.key) + ":" + str(ti.index)
-            a["fired"][k] = a["fired"].get(k, 0) + 1
-            if a["fired"][k] > 1:
-                res.violate(f"{engine}|after-fired-twice-in-one-activation", {"state": sid, "timer": str(ti.key), "t": t})
+            epochs = [a["t_in"]] + a.get("epochs", [])
+            prev = a["fired"].get(k, [])
+            a["fired"][k] = prev + [recv_t]
+            if prev:
+                # a second firing in one activation is admissible only for a timer re-armed by a
+                # rollback that happened after the previous firing
+                ok2 = any(e2 >= prev[-1] - EPS and e2 + D_ - EPS <= recv_t <= busy_end(e2 + D_) + EPS for e2 in epochs[1:])
+                if not ok2:
+                    res.violate(f"{engine}|after-fired-twice-in-one-activation" + ("|after-rollback" if len(epochs) > 1 else ""),
+                                {"state": sid, "timer": str(ti.key), "fired_at": a["fired"][k], "epochs": epochs})
             # exact firing time when idle
-            due = a["t_in"] + D_
+            due = max(epochs) + D_
             limit = busy_end(due)
-            if recv_t > limit + EPS:
-                res.violate(f"{engine}|after-fired-late", {"state": sid, "timer": str(ti.key), "due": due, "busy_until": limit, "fired_at": recv_t})
+            if not any(e2 + D_ - EPS <= recv_t <= busy_end(e2 + D_) + EPS for e2 in epochs):
+                res.violate(f"{engine}|after-fired-late" if recv_t > limit + EPS else f"{engine}|after-fired-at-no-armed-deadline",
+                            {"state": sid, "timer": str(ti.key), "due": due, "busy_until": limit, "fired_at": recv_t, "epochs": epochs})
             if limit > due + EPS:
                 nontrivial = True
             if ti.guard is not None and ti.guard.get("k") == "const" and not ti.guard["val"]:
@@ -285,7 +341,7 @@ def check_case(case) -> CaseResult:
             if t.guard is not None and t.guard.get("k") == "const" and not t.guard["val"]:
                 continue
             D_ = _delay_ms(spec, t.key, a["d"]) / 1000.0
-            due = a["t_in"] + D_
+            due = max([a["t_in"]] + a.get("epochs", [])) + D_
             lim = busy_end(due)
             end = a["t_out"] if a["t_out"] is not None else horizon
             if run.steps[-1].status not in ("running", "stopped") and a["t_out"] is None:
@@ -295,7 +351,7 @@ def check_case(case) -> CaseResult:
                 # was the machine still running at `lim`?
                 if stop_time is not None and lim >= stop_time - EPS:
                     continue
-                res.violate(f"{engine}|after-not-fired-when-due", {"state": a["state"], "timer": str(t.key), "t_in": a["t_in"], "due": due,
+                res.violate(f"{engine}|after-not-fired-when-due" + ("|after-rollback" if a.get("epochs") else ""), {"state": a["state"], "timer": str(t.key), "t_in": a["t_in"], "due": due,
                                                                    "busy_until": lim, "activation_end": end})
     # ---- external events overlapping deadlines make the case non-trivial
     for a in history_acts:
@@ -312,6 +368,8 @@ def check_case(case) -> CaseResult:
     if run.thread_excs:
         res.violate(f"{engine}|exception-in-timer-thread", {"excs": run.thread_excs[:3]})
     res.nontrivial = nontrivial
+    if rollbacks:
+        res.classes.append("rolled-back-transition")
     seen = set()
     uniq = []
     for t, d_ in res.violations:
